@@ -45,7 +45,23 @@ func (j *C11Job) Name() string { return fmt.Sprintf("C11/%s/%s/faults=%d", j.Set
 
 type sendCounter struct {
 	world.BaseMonitor
-	n int
+	n      int
+	swept  int // tasks written back by the TimeoutTasks sweep (reset or timed out)
+}
+
+func (s *sendCounter) OnCommit(w *world.World, e *world.CommitEvent) {
+	if e.Err != nil {
+		return
+	}
+	for i, o := range e.Owners {
+		if strings.HasPrefix(o, "TimeoutTasks") && i < len(e.Subs) {
+			for _, c := range e.Subs[i].Store.Transaction.Commands {
+				if c.UpdateTask != nil {
+					s.swept++
+				}
+			}
+		}
+	}
 }
 
 func (s *sendCounter) OnSend(w *world.World, e *world.SendEvent) {
@@ -156,6 +172,7 @@ func (j *C11Job) runOnce(ch *vx.Chooser, keepLog bool, img **world.Image, imgClo
 	}
 	first := map[string]int{} // obligation -> cycle in which it was first seen
 	sendsAt := map[string]int{}
+	sweptAt := map[string]int{}
 	start := obligationKeys(w.Dump(), w.Clock+stepMs)
 	// bound on the number of cycles any single obligation may stay open
 	K := len(start) + len(w.Dump().Schedules)*2 + j.Faults + 4
@@ -220,9 +237,18 @@ func (j *C11Job) runOnce(ch *vx.Chooser, keepLog bool, img **world.Image, imgClo
 			if _, ok := first[k]; !ok {
 				first[k] = cycle
 				sendsAt[k] = sends.n
+				sweptAt[k] = sends.swept
 			}
 			if cycle-first[k] >= K {
 				kind, _, _ := strings.Cut(k, ":")
+				if kind == "task-lease-overdue" {
+					// distinguish "the lease sweep does nothing" from "it keeps retiring other tasks"
+					if sends.swept-sweptAt[k] > 0 {
+						kind += fmt.Sprintf(":starved-by-other-tasks:tbs=%d", j.Cfg.tbs)
+					} else {
+						kind += ":no-sweep-progress"
+					}
+				}
 				if kind == "task-undispatched" {
 					// distinguish "nothing is dispatched at all" from "other roots keep being dispatched"
 					if sends.n-sendsAt[k] > 0 {
